@@ -20,5 +20,6 @@ CaseOK(c) ==
     /\ ~("panic" \in DOMAIN c)
     /\ c.ok = Accept(c.n, c.I, c.nt, c.It)
     /\ c.ok => /\ c.geo_main = <<c.nt, c.It, c.n, c.I>>       \* geometry as configured ...
-               /\ c.geo_other = <<c.nt, c.It, c.n, c.I>>      \* ... for every thread of the process
+               /\ c.geo_other = <<c.nt, c.It, c.n, c.I>>      \* ... for every thread of the process,
+               /\ c.geo_early = <<c.nt, c.It, c.n, c.I>>      \* also one that used Sentinel before initialisation
 =============================================================================
